@@ -222,7 +222,9 @@ func runC15(c *ctx, r *Report) error {
 	other := filepath.Join(tmp, "elsewhere")
 	os.MkdirAll(other, 0o755)
 	os.MkdirAll(filepath.Join(root, "sub", "dir"), 0o755)
-	files := map[string]string{"a.yml": c15Workflow, "nested/b.yml": c15Workflow, "c.yml": "on: push\njobs:\n  ok:\n    runs-on: ubuntu-latest\n    steps:\n      - run: echo ok\n"}
+	// broken.yml is not well-formed YAML: its only diagnostic comes from the YAML layer, not from a rule
+	files := map[string]string{"a.yml": c15Workflow, "nested/b.yml": c15Workflow, "c.yml": "on: push\njobs:\n  ok:\n    runs-on: ubuntu-latest\n    steps:\n      - run: echo ok\n",
+		"broken.yml": "on: push\njobs:\n  test: [\n", "nested/half.yml": "on: push\njobs:\n  t:\n    steps: 1\n"}
 	if err := writeProject(root, "", files); err != nil {
 		return err
 	}
@@ -246,7 +248,8 @@ func runC15(c *ctx, r *Report) error {
 		}
 		return sb.String()
 	}
-	absFiles := []string{filepath.Join(root, ".github", "workflows", "a.yml"), filepath.Join(root, ".github", "workflows", "nested", "b.yml"), filepath.Join(root, ".github", "workflows", "c.yml")}
+	absFiles := []string{filepath.Join(root, ".github", "workflows", "a.yml"), filepath.Join(root, ".github", "workflows", "nested", "b.yml"), filepath.Join(root, ".github", "workflows", "c.yml"),
+		filepath.Join(root, ".github", "workflows", "broken.yml"), filepath.Join(root, ".github", "workflows", "nested", "half.yml")}
 	// unfiltered reference (from the root)
 	st0, out0, err0, err := runMain(root, append(append([]string{}, base...), absFiles...)...)
 	if err != nil {
@@ -268,6 +271,8 @@ func runC15(c *ctx, r *Report) error {
 		{`^property .* is not defined`, `label ".+" is unknown`},
 		{`.`},
 		{`needs job`, `invalid`, `"id"`, `input "no-such-input"`},
+		{`could not parse as YAML`},
+		{`YAML|section is missing|must be`},
 	}
 	cfgSets := []struct {
 		glob string
@@ -278,10 +283,11 @@ func runC15(c *ctx, r *Report) error {
 		{".github/workflows/**/*.yml", []string{`label ".+" is unknown`}},
 		{".github/workflows/nested/*.yml", []string{`.`}},
 		{"**/a.yml", []string{`property`, `needs job`}},
+		{".github/workflows/broken.yml", []string{`could not parse`}},
 	}
 	cwds := []string{root, filepath.Dir(root), filepath.Join(root, "sub", "dir"), other}
 	if c.quick {
-		patSets = patSets[:5]
+		patSets = append(patSets[:4:4], patSets[6:]...)
 	}
 	for ci, cs := range cfgSets {
 		cfg := ""
@@ -295,7 +301,7 @@ func runC15(c *ctx, r *Report) error {
 			return err
 		}
 		for pi, pats := range patSets {
-			if c.quick && ci > 0 && pi > 2 {
+			if c.quick && ci > 0 && pi > 2 && pi != len(patSets)-1 {
 				continue
 			}
 			// expected: reference minus matched
@@ -319,6 +325,8 @@ func runC15(c *ctx, r *Report) error {
 						m = filepath.Dir(relp) == ".github/workflows/nested"
 					case "**/a.yml":
 						m = filepath.Base(relp) == "a.yml"
+					case ".github/workflows/broken.yml":
+						m = relp == ".github/workflows/broken.yml"
 					}
 					if m {
 						for _, p := range cs.pats {
